@@ -118,9 +118,14 @@ RECURSIVE Dependents(_, _, _)
 Dependents(m, S, acc) == LET new == {n \in NodesOf(m) : Needs(m, n) \cap (S \cup acc) # {}} \ acc IN
                          IF new = {} THEN acc ELSE Dependents(m, S, acc \cup new)
 
-Setters == {"setData", "setLHS", "setRHS", "setVar", "setBayes", "setColCok"}
+\* "unsetBayes" = setBayes(nullptr, nullptr) and "unsetColCok" = setColCokUnique(nullptr, nullptr): the documented way of
+\* switching an option off (version 0 of the input = option off)
+Setters == {"setData", "setLHS", "setRHS", "setVar", "setBayes", "setColCok", "unsetBayes", "unsetColCok"}
 Sets(s) == CASE s = "setData" -> {"Z"} [] s = "setLHS" -> {"Sigma", "X"} [] s = "setRHS" -> {"Sigma0", "X0"}
-             [] s = "setVar" -> {"Sigma00"} [] s = "setBayes" -> {"Prior"} [] s = "setColCok" -> {"ColCok"}
+             [] s = "setVar" -> {"Sigma00"} [] s \in {"setBayes", "unsetBayes"} -> {"Prior"}
+             [] s \in {"setColCok", "unsetColCok"} -> {"ColCok"}
+\* version installed by a setter, given the current one
+NewVer(s, v) == IF s \in {"unsetBayes", "unsetColCok"} THEN 0 ELSE IF v = 1 THEN 2 ELSE 1
 \* what the setter invalidates in the tree under verification (resetLinkedTo*; before the repair
 \* recorded in KNOWN_FINDINGS.json setVar called nothing: TLC predicted the stale Stdv)
 RootsT(s) == Sets(s)
@@ -145,7 +150,8 @@ Init == /\ mode \in Modes /\ proto \in {"intended", "transcribed"}
 Set(s) ==
   /\ Len(hist) < MaxLen
   /\ s \in SettersOf(mode)
-  /\ ver' = [i \in InputsOf(mode) |-> IF i \in Sets(s) THEN 3 - ver[i] ELSE ver[i]]
+  /\ (s \in {"unsetBayes", "unsetColCok"} => \A i \in Sets(s) : ver[i] # 0)
+  /\ ver' = [i \in InputsOf(mode) |-> IF i \in Sets(s) THEN NewVer(s, ver[i]) ELSE ver[i]]
   /\ LET freed == IF proto = "intended" THEN Dependents(mode, Sets(s), {})
                   ELSE FreedBy(proto, RootsT(s)) \cap NodesOf(mode)
      IN cache' = [n \in NodesOf(mode) |-> IF n \in freed THEN Absent ELSE cache[n]]
@@ -159,8 +165,8 @@ Snap(m, c, x) == IF x \in Inputs THEN [i \in {x} |-> ver[x]]
                  ELSE LET parts == {Snap(m, c, y) : y \in Needs(m, x)}
                           dom == UNION {DOMAIN p : p \in parts}
                       IN [i \in dom |-> LET ps == {p \in parts : i \in DOMAIN p} IN
-                                         \* a stale part wins: the value is stale if any part is
-                                         IF \E p \in ps : p[i] # ver[i] THEN 3 - ver[i] ELSE ver[i]]
+                                         \* a stale part wins: the value is stale (-1) if any part is
+                                         IF \E p \in ps : p[i] # ver[i] THEN -1 ELSE ver[i]]
 RECURSIVE Computed(_, _, _)
 Computed(m, c, x) == IF x \in Inputs \/ c[x] # Absent THEN {}
                      ELSE {x} \cup UNION {Computed(m, c, y) : y \in Needs(m, x)}
